@@ -48,12 +48,61 @@ func (xmp *XMP) parser(p property) (err error) {
 // parseDate parses a Date and returns a time.Time or an error
 func parseDate(buf []byte) (t time.Time, err error) {
 	str := string(buf)
-	if t, err = time.Parse("2006-01-02T15:04:05Z07:00", str); err != nil {
-		if t, err = time.Parse("2006-01-02T15:04:05.00", str); err != nil {
-			return time.Parse("2006-01-02T15:04:05", str)
+	// XMP Date (XMP specification part 1, 8.2.1.2): the seconds, the time and
+	// the time zone designator may be left out
+	for _, layout := range xmpDateLayouts {
+		if t, err = time.Parse(layout, str); err == nil {
+			return
 		}
 	}
 	return
+}
+
+var xmpDateLayouts = []string{"2006-01-02T15:04:05Z07:00", "2006-01-02T15:04:05.00", "2006-01-02T15:04:05",
+	"2006-01-02T15:04Z07:00", "2006-01-02T15:04", "2006-01-02", "2006-01", "2006"}
+
+// parseGPSCoordinate parses the XMP GPSCoordinate forms "DDD,MM,SSk" and
+// "DDD,MM.mmk" (k is N, S, E or W; south and west are negative) and, for
+// writers that use it, a plain decimal number of degrees.
+func parseGPSCoordinate(buf []byte) float64 {
+	n := len(buf)
+	if n < 2 {
+		return parseFloat64(buf)
+	}
+	k := buf[n-1]
+	if k != 'N' && k != 'S' && k != 'E' && k != 'W' {
+		return parseFloat64(buf)
+	}
+	var v float64
+	scale := 1.0
+	parts := bytes.Split(buf[:n-1], []byte{','})
+	if len(parts) != 2 && len(parts) != 3 {
+		return 0
+	}
+	for _, p := range parts {
+		f, err := strconv.ParseFloat(string(p), 64)
+		if err != nil {
+			return 0
+		}
+		v += f / scale
+		scale *= 60
+	}
+	if k == 'S' || k == 'W' {
+		v = -v
+	}
+	return v
+}
+
+// parseRationalFloat64 parses an XMP Rational "n/d" or a plain decimal number.
+func parseRationalFloat64(buf []byte) float64 {
+	if i := bytes.IndexByte(buf, '/'); i > 0 {
+		n, d := parseFloat64(buf[:i]), parseFloat64(buf[i+1:])
+		if d == 0 {
+			return 0
+		}
+		return n / d
+	}
+	return parseFloat64(buf)
 }
 
 // parseUUID parses a UUID and returns a meta.UUID
